@@ -113,6 +113,18 @@ REG_KWARGS = {"Decision Tree": {"max_depth": 2}, "Extra Trees": {"n_estimators":
               "Gradient Tree Boosting": {"n_estimators": 3, "max_depth": 2}}
 
 
+def _shipped_kw():
+    import copy
+    from nanite.rate.regressors import reg_dict
+    return {name: copy.deepcopy(v[1]) for name, v in reg_dict.items()}
+
+
+try:
+    SHIPPED_KW = _shipped_kw()
+except Exception:  # noqa  (import order: filled on first use)
+    SHIPPED_KW = None
+
+
 def rater_kwargs_op(idnt, op, ctx, desc0):
     """get_rater(name, **own keywords) is a value-returning convenience call: ratings requested afterwards by name
     are those of the shipped regressor, as before the call (compared on fresh copies of the curve: no cache)"""
@@ -129,9 +141,15 @@ def rater_kwargs_op(idnt, op, ctx, desc0):
         v1 = fresh_rating()
         rater.get_rater(reg, **REG_KWARGS[reg])
         v2 = fresh_rating()
+        # reference that does not depend on what earlier cases of this process did: the shipped keywords (copied
+        # when this module was imported) passed explicitly
+        c = copy.deepcopy(idnt)
+        c._rating = None
+        ref = rater.get_rater(reg, **copy.deepcopy(SHIPPED_KW[reg])).rate(datasets=c)[0]
     if guard.ok:
-        ctx.check(v1 == v2, "rating-depends-on-earlier-get_rater-call", desc,
-                  f"{reg}: {v1!r} before and {v2!r} after get_rater({reg!r}, **{REG_KWARGS[reg]!r})")
+        ctx.check(v1 == v2 and v2 == ref, "rating-depends-on-earlier-get_rater-call", desc,
+                  f"{reg}: {v1!r} before and {v2!r} after get_rater({reg!r}, **{REG_KWARGS[reg]!r}); with the shipped "
+                  f"keywords given explicitly {ref!r}")
     ctx.event("get_rater_with_keywords")
 
 
